@@ -119,8 +119,20 @@ def summarize(func_node):
         ast.fix_missing_locations(t)
         return norm(t)
 
+    local_names = sorted((set(counts) | set(values)) - set(env), key=len, reverse=True)
+
     def emit(guards, action):
-        facts.add("%s => %s" % (" & ".join(guards) if guards else "always", action))
+        import re
+        text = "%s => %s" % (" & ".join(guards) if guards else "always", action)
+        # remaining locals (loop variables, names assigned more than once) are written as positional placeholders so that
+        # renaming them changes nothing
+        order = []
+        for m in re.finditer(r"(?<![\w.'\"])([A-Za-z_]\w*)(?!\w)", text):
+            if m.group(1) in local_names and m.group(1) not in order:
+                order.append(m.group(1))
+        for i, nme in enumerate(order, 1):
+            text = re.sub(r"(?<![\w.'\"])%s(?!\w)" % re.escape(nme), "_%d" % i, text)
+        facts.add(text)
 
     def expr_calls(e, guards):
         for c in walk_no_nested(e):
